@@ -19,6 +19,7 @@ TRANSLATED = {
     'C07': '_propagate_MCMC_step, _propagate_MCMC, _get_cummat, the public wrapper propagate_MCMC',
     'C08': '_estimate_waiting_times, _estimate_transition_times (msm), _get_cummat, _estimate_times (list and histogram form), StateTraj.state_to_idx',
     'C13': '_intersect, _intersect_array, _compare_trajs_symmetric, _compare_trajs_directed, _compare_discretization (both methods)',
+    'C12': 'the public wrappers that branch on numba.config.DISABLE_JIT (md.dynamical_coring, md.estimate_waiting_times / estimate_paths, _compare_discretization, _estimate_markov_model, _estimate_times): proved equal to the flag-free model for BOTH values of the flag',
     'C20': 'runningmean', 'C16': 'open_limits', 'C15': 'unique, shift_data, rename_by_index, rename_by_population (list-of-arrays form)',
     'C02': 'StateTraj.__init__, the StateTraj accessors, LumpedStateTraj.__init__ and its accessors, the relabelling utilities they use', 'C17': 'StateTraj.__init__, rename_by_index, shift_data',
     'C14': 'is_quadratic, is_transition_matrix, is_ergodic, is_fuzzy_ergodic, ergodic_mask',
